@@ -29,7 +29,40 @@ import (
 )
 
 const verifDir = "/verif"
-const repoDir = "/repo"
+
+// repoDir is the tree under test: /repo, or (for trying seeded changes without touching /repo)
+// a scratch worktree named by VERIF_REPO. The registered commands never set VERIF_REPO.
+var repoDir = func() string {
+	if d := os.Getenv("VERIF_REPO"); d != "" {
+		return d
+	}
+	return "/repo"
+}()
+
+// outBase: evidence and replay files of runs against a scratch tree go elsewhere, so that the
+// committed evidence only ever comes from /repo itself.
+func outBase() string {
+	if repoDir == "/repo" {
+		return verifDir
+	}
+	return "/var/tmp/verif-seed-out"
+}
+
+// modfileArgs returns -modfile=... pointing at a copy of h/go.mod whose replace directive
+// names repoDir when that is not /repo.
+func (c *ctx) modfileArgs() []string {
+	if repoDir == "/repo" {
+		return nil
+	}
+	mf := filepath.Join(c.scratch, "alt.mod")
+	if _, err := os.Stat(mf); err != nil {
+		b, _ := os.ReadFile(filepath.Join(verifDir, "h", "go.mod"))
+		_ = os.WriteFile(mf, bytes.Replace(b, []byte("=> /repo"), []byte("=> "+repoDir), 1), 0o644)
+		sum, _ := os.ReadFile(filepath.Join(verifDir, "h", "go.sum"))
+		_ = os.WriteFile(filepath.Join(c.scratch, "alt.sum"), sum, 0o644)
+	}
+	return []string{"-modfile=" + mf}
+}
 
 type Engine struct {
 	Name  string
@@ -159,6 +192,7 @@ func syncSum() {
 func (c *ctx) build(e *Engine) (string, error) {
 	bin := filepath.Join(c.scratch, "bin-"+e.Name)
 	args := []string{"build", "-o", bin}
+	args = append(args, c.modfileArgs()...)
 	if e.Race {
 		args = append(args, "-race")
 	}
@@ -227,7 +261,7 @@ func (c *ctx) runEngine(e *Engine, onlyCase int) *engineResult {
 	if onlyCase >= 0 {
 		rep = 1
 	}
-	replayDir := filepath.Join(verifDir, "replays", c.spec.ID)
+	replayDir := filepath.Join(outBase(), "replays", c.spec.ID)
 	_ = os.MkdirAll(replayDir, 0o755)
 	for i := 0; i < rep; i++ {
 		out := filepath.Join(c.scratch, fmt.Sprintf("%s-%d.json", e.Name, i))
@@ -421,7 +455,7 @@ func runSpec(spec *Spec, tier string, seed int64, onlyCase int, onlyEngine strin
 		sigs = append(sigs, v.Sig)
 	}
 	sort.Strings(sigs)
-	replayDir := filepath.Join(verifDir, "replays", spec.ID)
+	replayDir := filepath.Join(outBase(), "replays", spec.ID)
 	_ = os.MkdirAll(replayDir, 0o755)
 	newV, knownV := 0, 0
 	var vlist []map[string]interface{}
@@ -485,8 +519,8 @@ func runSpec(spec *Spec, tier string, seed int64, onlyCase int, onlyEngine strin
 	ev["violations"] = newV
 	if writeEv {
 		b, _ := json.MarshalIndent(ev, "", " ")
-		_ = os.MkdirAll(filepath.Join(verifDir, "evidence"), 0o755)
-		if err := os.WriteFile(filepath.Join(verifDir, "evidence", spec.ID+".json"), append(b, '\n'), 0o644); err != nil {
+		_ = os.MkdirAll(filepath.Join(outBase(), "evidence"), 0o755)
+		if err := os.WriteFile(filepath.Join(outBase(), "evidence", spec.ID+".json"), append(b, '\n'), 0o644); err != nil {
 			fmt.Printf("INCONCLUSIVE property=%s cannot write evidence: %v\n", spec.ID, err)
 			return 2
 		}
